@@ -296,3 +296,223 @@ pub fn answerable_request(rng: &mut Rng, dst7: u8, src7: u8, iid: u8, nsets: usi
 pub fn pec_ok(p: &[u8]) -> bool {
     !p.is_empty() && crc8(&p[..p.len() - 1]) == p[p.len() - 1]
 }
+
+/// A deterministic set of well-formed base packets covering every message type, every library
+/// encoder, and forged requests/responses for every defined command (same for all shards).
+pub fn base_packets(seed: u64) -> Vec<Vec<u8>> {
+    let mut rng = Rng::new(crate::rng::mix(seed, 0xBA5E));
+    let mut v: Vec<Vec<u8>> = Vec::new();
+    for &form in ALL_FORMS.iter() {
+        for _ in 0..8 {
+            let c = Call::random(form, &mut rng, true, 40);
+            if let Some(p) = encode_ok(&c) {
+                v.push(p);
+                break;
+            }
+        }
+    }
+    for cmd in 0..=0x15u8 {
+        for rq in [true, false] {
+            let data = ctrl_data(&mut rng, rq, cmd, true);
+            let (d, s, iid) = (rng.byte() & 0x7F, rng.byte() & 0x7F, rng.byte() & 0x1F);
+            v.push(if rq { ctrl_request(d, s, iid, false, cmd, &data) } else { ctrl_response(d, s, iid, cmd, 0, &data) });
+        }
+    }
+    for cc in 1..=6u8 {
+        v.push(ctrl_response(0x10, 0x20, cc, 0x01 + (cc % 6), cc, &[]));
+    }
+    for ty in [TY_PCI, TY_IANA, TY_SPDM, TY_SECURED] {
+        for n in [0usize, 1, 5, 40] {
+            let body = rng.bytes(n);
+            v.push(frame(rng.byte() & 0x7F, rng.byte() & 0x7F, rng.byte(), rng.byte(), FLAGS_REQ, ty, &body));
+        }
+    }
+    // maximum-length packets
+    v.push(frame(0x11, 0x22, 0x11, 0x22, FLAGS_REQ, TY_PCI, &rng.bytes(249)));
+    v.push(ctrl_response(0x11, 0x22, 1, 0x05, 0, &rng.bytes(246)));
+    v.push(ctrl_request(0x11, 0x22, 1, false, 0x03, &rng.bytes(247)));
+    v
+}
+
+#[derive(Clone, Debug)]
+pub struct RxPlan {
+    /// field sweep: bytes 0..13 of every base packet through all 256 values
+    pub field_sweep: bool,
+    /// command x direction x data length sweep up to this data length
+    pub cmd_len_max: usize,
+    pub truncations: bool,
+    pub lengths: bool,
+    pub random: u64,
+}
+
+/// Enumerate the receive corpus; `f(input, rng)` is invoked for the items of this shard only.
+pub fn for_each_input(cfg: &crate::RunCfg, label: &str, plan: &RxPlan, f: &mut dyn FnMut(&[u8], &mut Rng)) {
+    let mut rng = cfg.rng(label);
+    let ns = cfg.nshards as u64;
+    let sh = cfg.shard as u64;
+    let mut counter = 0u64;
+    let bases = base_packets(cfg.seed);
+    macro_rules! item {
+        ($make:expr) => {{
+            if counter % ns == sh {
+                let p: Vec<u8> = $make;
+                f(&p, &mut rng);
+            }
+            counter += 1;
+        }};
+    }
+    // (a) bases as they are, and (g) zero-padded
+    for b in &bases {
+        item!(b.clone());
+        item!({
+            let mut p = b.clone();
+            p.extend(std::iter::repeat(0u8).take(1 + rng.below(24) as usize));
+            p
+        });
+    }
+    // (c) field sweeps
+    if plan.field_sweep {
+        for b in &bases {
+            let lim = b.len().min(13);
+            for i in 0..lim {
+                for v in 0..=255u8 {
+                    item!({
+                        let mut p = b.clone();
+                        p[i] = v;
+                        fix_pec(&mut p);
+                        p
+                    });
+                    if v % 4 == (i as u8) % 4 {
+                        item!({
+                            let mut p = b.clone();
+                            p[i] = v;
+                            p
+                        });
+                    }
+                }
+            }
+        }
+    }
+    // (b) command x direction x data length, valid PEC; completion codes; operations; selectors
+    if plan.cmd_len_max > 0 {
+        for cmd in 0..=255u8 {
+            for rq in [true, false] {
+                let lmax = if cmd <= 0x16 || cmd >= 0xFE { plan.cmd_len_max } else { 3 };
+                for len in 0..=lmax {
+                    item!({
+                        let data = rng.bytes(len);
+                        let (d, s, iid) = (rng.byte() & 0x7F, rng.byte() & 0x7F, rng.byte() & 0x1F);
+                        if rq {
+                            ctrl_request(d, s, iid, false, cmd, &data)
+                        } else {
+                            ctrl_response(d, s, iid, cmd, 0, &data)
+                        }
+                    });
+                }
+            }
+            for cc in 0..=255u8 {
+                if cmd <= 0x0A || cc <= 6 || cc == cmd {
+                    item!({
+                        let data = ctrl_data(&mut rng, false, cmd, true);
+                        ctrl_response(rng.byte() & 0x7F, rng.byte() & 0x7F, rng.byte() & 0x1F, cmd, cc, &data)
+                    });
+                }
+            }
+        }
+        for op in 0..=255u8 {
+            for eid in [0x00u8, 0x01, 0x42, 0xFE, 0xFF] {
+                item!(ctrl_request(rng.byte() & 0x7F, rng.byte() & 0x7F, rng.byte() & 0x1F, false, 0x01, &[op, eid]));
+            }
+            item!(ctrl_request(rng.byte() & 0x7F, rng.byte() & 0x7F, rng.byte() & 0x1F, false, 0x06, &[op]));
+            item!(ctrl_request(rng.byte() & 0x7F, rng.byte() & 0x7F, rng.byte() & 0x1F, false, 0x04, &[op]));
+        }
+        // every control header byte 0 value (Rq, D, reserved, instance ID)
+        for b9 in 0..=255u8 {
+            for cmd in [0x01u8, 0x02, 0x03, 0x04, 0x05, 0x06] {
+                item!({
+                    let rq = b9 & 0x80 != 0;
+                    let data = ctrl_data(&mut rng, rq, cmd, true);
+                    let mut p = if rq { ctrl_request(0x12, 0x34, 0, false, cmd, &data) } else { ctrl_response(0x12, 0x34, 0, cmd, 0, &data) };
+                    p[9] = b9;
+                    fix_pec(&mut p);
+                    p
+                });
+            }
+        }
+        // every type byte (IC x 128 types), with and without a good PEC
+        for b8 in 0..=255u8 {
+            for n in [0usize, 3, 17] {
+                item!(frame(0x12, 0x34, 0x12, 0x34, FLAGS_REQ, b8, &rng.bytes(n)));
+            }
+            item!({
+                let mut p = frame(0x12, 0x34, 0x12, 0x34, FLAGS_REQ, b8, &[0x80, 0x02]);
+                let n = p.len();
+                p[n - 1] ^= 0x10;
+                p
+            });
+        }
+    }
+    // (d) truncations, with the cut byte left as is / PEC recomputed, and empty input
+    if plan.truncations {
+        item!(Vec::new());
+        for b in &bases {
+            for k in 0..b.len() {
+                item!(b[..k].to_vec());
+                item!({
+                    let mut p = b[..k].to_vec();
+                    fix_pec(&mut p);
+                    p
+                });
+            }
+        }
+    }
+    // (f) every total length, plausible headers, all types; overflow-sensitive lengths
+    if plan.lengths {
+        let lens: Vec<usize> = (0..=263).chain(508..=519).collect();
+        for &n in &lens {
+            for ty in SUPPORTED_TYPES {
+                for variant in 0..3u8 {
+                    item!({
+                        let mut p = rng.bytes(n);
+                        if n > 1 {
+                            p[1] = SMBUS_CMD;
+                        }
+                        if n > 2 {
+                            p[2] = n.wrapping_sub(4) as u8;
+                        }
+                        if n > 4 {
+                            p[4] = HDR_BYTE;
+                        }
+                        if n > 8 {
+                            p[8] = ty;
+                        }
+                        if ty == TY_CONTROL && n > 10 {
+                            // request / success response / random direction
+                            match variant {
+                                0 => {
+                                    p[9] |= 0x80;
+                                    p[10] = *rng.pick(&[0x02u8, 0x03, 0x05]);
+                                }
+                                1 => {
+                                    p[9] &= 0x7F;
+                                    p[10] = *rng.pick(&[0x05u8, 0x06]);
+                                    if n > 11 {
+                                        p[11] = 0;
+                                    }
+                                }
+                                _ => p[10] = random_cmd(&mut rng),
+                            }
+                        }
+                        fix_pec(&mut p);
+                        p
+                    });
+                }
+            }
+        }
+    }
+    // (e)/(f) random mixture
+    let n = cfg.n(plan.random);
+    for _ in 0..n {
+        item!(gen_any(&mut rng));
+    }
+}
